@@ -301,8 +301,10 @@ class Model:
                 trees[name] = ast.parse(text, filename=path)
             except SyntaxError as e:
                 raise AnalysisError(f"{path} does not parse: {e}")
+        from . import canon
+        # every variant (also the tree as written): the engine's thread life cycle as one function (canon.inline_thread_pool_withs)
+        self.pool_withs_inlined = canon.inline_thread_pool_withs(trees)
         if self.canon_level:
-            from . import canon
             self.canon_log = canon.canonicalise(trees, self.canon_level, canon.load_known_funcs())
         for name, (path, text, is_pkg) in sorted(found.items()):
             self.modules[name] = Module(name, path, text, trees[name], is_pkg)
